@@ -488,6 +488,13 @@ func DownloadFolderHandler(rwc io.ReadWriter, fullPath string, fileTransfer *Fil
 			return fmt.Errorf("error opening file: %w", err)
 		}
 
+		// Resume: send the data fork from the offset the client asked for, as announced in the transfer size.
+		if dataOffset > 0 {
+			if _, err := file.Seek(dataOffset, io.SeekStart); err != nil {
+				return fmt.Errorf("error seeking to resume offset: %w", err)
+			}
+		}
+
 		// wr := bufio.NewWriterSize(rwc, 1460)
 		if _, err = io.Copy(rwc, io.TeeReader(file, fileTransfer.bytesSentCounter)); err != nil {
 			return fmt.Errorf("error sending file: %w", err)
